@@ -19,6 +19,30 @@ TYPE = {"map": "map", "flat_map": "flat_map", "poll": "poll", "retry": "retry", 
         "cancel_on_shutdown": "cancel_on_shutdown"}
 
 
+class FalsyError(KeyError):
+    def __bool__(self):
+        return False
+
+
+class Counting(object):
+    """stands between a retry executor and its delegate: counts submit() calls per callable, forwards everything"""
+
+    def __init__(self, inner, counts):
+        self.__dict__["_inner"] = inner
+        self.__dict__["_counts"] = counts
+
+    def submit(self, fn, *a, **k):
+        e = self._counts.setdefault(id(fn), [fn, 0])      # keeps fn alive: its id cannot be re-used by a later callable
+        e[1] += 1
+        return self._inner.submit(fn, *a, **k)
+
+    def __getattr__(self, n):
+        return getattr(self._inner, n)
+
+    def __setattr__(self, n, v):
+        setattr(self._inner, n, v)
+
+
 def gen(rng):
     depth = rng.randint(1, 4)
     layers = [rng.choice(KINDS) for _ in range(depth)]
@@ -37,7 +61,7 @@ def execute(p, chooser):
     from more_executors import Executors
     from more_executors.futures import f_return
     pc.reset()
-    obs = {"params": p, "polls": 0, "poll_errors": 0, "invocations": {}, "outs": {}, "accepted": 0, "cancel_calls": []}
+    obs = {"params": p, "polls": 0, "poll_errors": 0, "invocations": {}, "outs": {}, "accepted": 0, "cancel_calls": [], "retry_submits": {}}
     from more_executors._impl import common as _common
     if not getattr(_common._Future.cancel, "_verif_wrapped", False):
         _orig_cancel = _common._Future.cancel
@@ -85,6 +109,8 @@ def execute(p, chooser):
                     ex = ex.with_poll(poll_fn, default_interval=1)
                 elif k == "retry":
                     ex = ex.with_retry(max_attempts=3, sleep=1)
+                    if p["layers"].count("retry") == 1:
+                        ex._delegate = Counting(ex._delegate, obs["retry_submits"])
                 elif k == "throttle":
                     ex = ex.with_throttle(1)
                 elif k == "timeout":
@@ -107,7 +133,7 @@ def execute(p, chooser):
                 if spec["block"] and p["base"] == "pool":
                     det.wait_until(lambda: gate["open"])
                 if spec["script"][min(k, 3)] == "err":
-                    raise KeyError(s)
+                    raise (FalsyError(s) if s % 2 else KeyError(s))      # some failures carry a falsy exception object
                 return s
             return fn
         for s, spec in enumerate(p["subs"]):
@@ -192,6 +218,12 @@ def monitor(r, obs):
         if val0(reg, "timeout", name) != want:
             out.append({"what": "timeout_total = %s, %d cancels by a timeout thread succeeded" % (val0(reg, "timeout", name), want),
                         "detail": str(p), "pattern": "metrics:timeout_total"})
+    # retries = hand-overs of an attempt after the first one of its submission
+    if p["layers"].count("retry") == 1:
+        want = sum(max(0, c[1] - 1) for c in obs.get("retry_submits", {}).values())
+        if val0(reg, "retry_total", name) != want:
+            out.append({"what": "retry_total = %s, %d attempts after a first one were handed to the delegate" % (val0(reg, "retry_total", name), want),
+                        "detail": str(p), "pattern": "metrics:retry_total"})
     if any(o == "pending" for o in obs["outs"].values()):
         return out     # something never finished (another property's business): gauges legitimately non-zero
     for k, v in sorted(reg.items()):
